@@ -53,3 +53,13 @@ mut("array_names_pz_not_3d", "src/vector/backends/numpy.py", 'elif any(x in ("z"
 mut("numpy_true_divide_multiplies", "src/vector/backends/numpy.py", "result = inputs[0].scale(1 / inputs[1])", "result = inputs[0].scale(inputs[1])", ["C11"], "NumPy-backend '/' multiplies instead of dividing")
 mut("object_rmul_ignores_factor", "src/vector/backends/object.py", "result = inputs[1].scale(inputs[0])", "result = inputs[1].scale(1)", ["C11"], "object-backend  k * v  ignores k")
 mut("awkward_cbrt_4d_uses_mag", "src/vector/backends/awkward.py", 'behavior[numpy.cbrt, "Vector4D"] = lambda v: v.tau2**0.16666666666666666', 'behavior[numpy.cbrt, "Vector4D"] = lambda v: v.mag2**0.16666666666666666', ["C11"], "numpy.cbrt of a generic Awkward 4D vector uses mag instead of tau")
+
+# --- conversions (C04) and type rules (C05) ---------------------------------------------------------
+mut("to_rhophietatau_uses_t", "src/vector/_methods.py", "            tcoord = lorentz.tau.dispatch(self)\n\n        return self._wrap_result(\n            type(self),\n            (planar.rho.dispatch(self), planar.phi.dispatch(self), lcoord, tcoord),\n            [AzimuthalRhoPhi, LongitudinalEta, TemporalTau],",
+    "            tcoord = lorentz.t.dispatch(self)\n\n        return self._wrap_result(\n            type(self),\n            (planar.rho.dispatch(self), planar.phi.dispatch(self), lcoord, tcoord),\n            [AzimuthalRhoPhi, LongitudinalEta, TemporalTau],", ["C04"], "one of the 20 conversions stores t under the name tau")
+mut("to_Vector4D_mass_as_t", "src/vector/_methods.py", "        if any(coord is not None for coord in (tau, m, M, mass)):\n            t_type = TemporalTau\n            t_value = next(coord for coord in (tau, m, M, mass) if coord is not None)\n        elif any(coord is not None for coord in (t, e, E, energy)):\n            t_value = next(coord for coord in (t, e, E, energy) if coord is not None)\n\n        return self._wrap_result(\n            type(self),\n            (*self.azimuthal.elements, *self.longitudinal.elements, t_value),",
+    "        if any(coord is not None for coord in (tau, m, mass)):\n            t_type = TemporalTau\n            t_value = next(coord for coord in (tau, m, M, mass) if coord is not None)\n        elif any(coord is not None for coord in (t, e, E, energy, M)):\n            t_value = next(coord for coord in (t, e, E, energy, M) if coord is not None)\n\n        return self._wrap_result(\n            type(self),\n            (*self.azimuthal.elements, *self.longitudinal.elements, t_value),", ["C04"], "3D.to_Vector4D(M=...) stores the value as t instead of tau")
+mut("handler_priority_numpy_over_awkward", "src/vector/_methods.py", '    "vector.backends.numpy",\n    "vector.backends.sympy",\n    "vector.backends.awkward",\n]', '    "vector.backends.awkward",\n    "vector.backends.sympy",\n    "vector.backends.numpy",\n]', ["C05"], "NumPy outranks Awkward when choosing the result backend")
+mut("flavor_of_all_instead_of_any", "src/vector/_methods.py", "is_momentum = any(isinstance(obj, Momentum) for obj in objects)", "is_momentum = all(isinstance(obj, Momentum) for obj in objects if isinstance(obj, Vector))", ["C05"], "momentum only if every operand is momentum")
+mut("cross_accepts_4d", "src/vector/_methods.py", '        if dim(self) != 3 or dim(other) != 3:\n            raise TypeError("cross is only defined for 3D vectors")', '        if dim(self) < 3 or dim(other) < 3:\n            raise TypeError("cross is only defined for 3D vectors")', ["C05"], "cross no longer rejects 4D operands")
+mut("momentum3d_projection_generic", "src/vector/backends/numpy.py", "MomentumNumpy3D.ProjectionClass2D = MomentumNumpy2D", "MomentumNumpy3D.ProjectionClass2D = VectorNumpy2D", ["C04", "C05"], "projection of a 3D momentum NumPy array to 2D loses the flavor")
